@@ -1428,6 +1428,35 @@ func coCorpus() []coCase {
 	}
 }
 
+func coWriteCases(rep *vReport, prop string, coq, jsons []string) {
+	const chunk = 40
+	for i, k := 0, 0; i < len(coq) || i == 0; i, k = i+chunk, k+1 {
+		j := i + chunk
+		if j > len(coq) {
+			j = len(coq)
+		}
+		fn := fmt.Sprintf("cases_%s_%02d_0.v", prop, k)
+		var sb strings.Builder
+		sb.WriteString("From KS Require Import lib.Base model.Coordinator corr.CoordinatorCorr.\nOpen Scope Z_scope.\n")
+		names := make([]string, 0, j-i)
+		for n, c := range coq[i:j] {
+			sb.WriteString(fmt.Sprintf("(*#%d*) Definition c%d : case := %s.\n", n, n, strings.ReplaceAll(c, "\n", " ")))
+			names = append(names, fmt.Sprintf("c%d", n))
+		}
+		sb.WriteString("Definition cases : list case := " + cqList(names) + ".\n")
+		sb.WriteString("Definition mism := Eval vm_compute in (mismatches check_case cases).\nPrint mism.\n")
+		_ = os.WriteFile(vOutDir()+"/"+fn, []byte(sb.String()), 0o644)
+		if len(jsons) == len(coq) && j > i {
+			_ = os.WriteFile(vOutDir()+"/"+strings.TrimSuffix(fn, ".v")+".jsonl", []byte(strings.Join(jsons[i:j], "\n")+"\n"), 0o644)
+		}
+		rep.CaseFiles = append(rep.CaseFiles, fn)
+		if len(coq) == 0 {
+			break
+		}
+	}
+	rep.CaseCount += len(coq)
+}
+
 func coNontrivial(r *coRunner) bool {
 	return r.tags["sync-success"] && r.tags["join-existing"] && len(r.steps) >= 5
 }
@@ -1497,15 +1526,9 @@ func TestVerifCoordinator(t *testing.T) {
 	if !coDetectKeep() {
 		rep.Notes = append(rep.Notes, "InMemoryStore.cloneConsumerGroup drops SessionTimeoutMs/RebalanceTimeoutMs (defect owned by C17): after a failover the new coordinator uses the 30 s defaults; modelled with e_keep=false")
 	}
-	// several smaller cases files: they are evaluated in parallel by bin/check
-	const chunk = 60
-	for i, k := 0, 0; i < len(coq) || i == 0; i, k = i+chunk, k+1 {
-		j := i + chunk
-		if j > len(coq) {
-			j = len(coq)
-		}
-		rep.Cases(fmt.Sprintf("%s_%02d", prop, k), "From KS Require Import lib.Base model.Coordinator corr.CoordinatorCorr.", "case", "check_case", coq[i:j], jsons[i:j])
-	}
+	// cases files: one Definition per case (coqc elaborates one huge list literal
+	// quadratically), several files so that bin/check evaluates them in parallel
+	coWriteCases(rep, prop, coq, jsons)
 	rep.WriteAs(prop)
 	if len(rep.Failures) > 0 {
 		t.Logf("oracle failures: %s", strings.TrimSpace(rep.Failures[0].What))
